@@ -78,14 +78,15 @@ class Registry:
         if q is not None:
             return self.contracts.get(q)
         # method of the same class first, then module-level function, then unique suffix match
-        if "." in caller:
-            cls = caller.rsplit(".", 1)[0]
-            c = self.contracts.get("%s.%s" % (cls, name))
-            if c is not None:
-                return c
+        for sep in (".", "::"):
+            if sep in caller:
+                cls = caller.rsplit(sep, 1)[0]
+                c = self.contracts.get("%s%s%s" % (cls, sep, name))
+                if c is not None:
+                    return c
         if name in self.contracts:
             return self.contracts[name]
-        cands = [c for q, c in self.contracts.items() if q.split(".")[-1] == name]
+        cands = [c for q, c in self.contracts.items() if q.split(".")[-1] == name or q.split("::")[-1] == name]
         if len(cands) == 1:
             return cands[0]
         return None
